@@ -60,6 +60,28 @@ pub struct Scenario {
     /// use `try_convert_vec_in_place` (else `convert_vec_in_place`)
     pub try_entry: bool,
     pub failure: Option<(u16, FailKind)>,
+    /// call the conversion from a destructor that runs while the thread unwinds from an unrelated panic
+    #[serde(default)]
+    pub in_unwind: bool,
+}
+
+/// Runs `f` inside a destructor executed while the thread is unwinding from a panic of its own.
+fn run_while_unwinding<R>(f: impl FnOnce() -> R) -> R {
+    struct OnDrop<'a, R, F: FnOnce() -> R>(Option<F>, &'a mut Option<R>);
+    impl<'a, R, F: FnOnce() -> R> Drop for OnDrop<'a, R, F> {
+        fn drop(&mut self) {
+            debug_assert!(std::thread::panicking());
+            *self.1 = Some((self.0.take().expect("once"))());
+        }
+    }
+    struct Outer;
+    let mut out = None;
+    let r = catch_unwind(AssertUnwindSafe(|| {
+        let _guard = OnDrop(Some(f), &mut out);
+        std::panic::panic_any(Outer);
+    }));
+    assert!(matches!(r, Err(ref e) if e.is::<Outer>()), "the outer panic is what the outer catch sees");
+    out.expect("the destructor ran")
 }
 
 struct ConvState {
@@ -212,16 +234,19 @@ fn run_pair<T: Elem, U: Elem>(sc: &Scenario) -> Result<Stats, Failure> {
     if tracked_alloc {
         alloc_watch(in_ptr, in_cap * std::mem::size_of::<T>(), std::mem::align_of::<T>());
     }
-    let result = catch_unwind(AssertUnwindSafe(|| {
-        if sc.try_entry {
-            try_convert_vec_in_place::<T, U, _, ErrTok>(input, converter::<T, U>)
-        } else {
-            Ok(convert_vec_in_place::<T, U, _>(input, |t, u| match converter::<T, U>(t, u) {
-                Ok(r) => r,
-                Err(_) => unreachable!("ErrRet is only generated for the try_ entry"),
-            }))
-        }
-    }));
+    let call = || {
+        catch_unwind(AssertUnwindSafe(|| {
+            if sc.try_entry {
+                try_convert_vec_in_place::<T, U, _, ErrTok>(input, converter::<T, U>)
+            } else {
+                Ok(convert_vec_in_place::<T, U, _>(input, |t, u| match converter::<T, U>(t, u) {
+                    Ok(r) => r,
+                    Err(_) => unreachable!("ErrRet is only generated for the try_ entry"),
+                }))
+            }
+        }))
+    };
+    let result = if sc.in_unwind { run_while_unwinding(call) } else { call() };
     // state right after the call; the allocation stays watched until the result is dropped
     let release_during = if tracked_alloc { alloc_state() } else { Release::NotReleased };
     let freed_during = release_during != Release::NotReleased;
@@ -465,6 +490,9 @@ pub const PAIR_NAMES: [&str; 13] = [
 pub fn check_scenario(sc: &Scenario) -> Result<Stats, Failure> {
     let mut s = dispatch_pair!(sc.pair, run_pair, sc)?;
     s.labels.push(PAIR_NAMES[(sc.pair % PAIR_N) as usize]);
+    if sc.in_unwind {
+        s.labels.push("called_from_destructor_during_unwinding");
+    }
     match sc.actions.len() {
         0 => s.labels.push("len0"),
         1 => s.labels.push("len1"),
@@ -504,6 +532,7 @@ pub fn scenario_strategy(with_failure: bool) -> impl Strategy<Value = Scenario> 
         prop_oneof![20 => 0u16..9, 1 => 1000u16..6000],
         actions_strategy(),
         any::<bool>(),
+        prop::bool::weighted(0.1),
         (any::<u16>(), prop_oneof![
             Just(FailKind::ErrRet),
             Just(FailKind::PanicBefore),
@@ -514,12 +543,13 @@ pub fn scenario_strategy(with_failure: bool) -> impl Strategy<Value = Scenario> 
             Just(FailKind::ErrAfterPrevReplaced)
         ]),
     )
-        .prop_map(move |(pair, spare, actions, try_entry, failure)| Scenario {
+        .prop_map(move |(pair, spare, actions, try_entry, in_unwind, failure)| Scenario {
             pair,
             spare,
             actions,
             try_entry,
             failure: if with_failure { Some(failure) } else { None },
+            in_unwind,
         })
 }
 
@@ -651,11 +681,15 @@ macro_rules! mm_inner {
             5 => run_mismatch::<$t, M4_2>($case),
             6 => run_mismatch::<$t, M8_1>($case),
             7 => run_mismatch::<$t, MZ1>($case),
-            _ => run_mismatch::<$t, MZ8>($case),
+            8 => run_mismatch::<$t, MZ8>($case),
+            9 => run_mismatch::<$t, M260_4>($case),
+            10 => run_mismatch::<$t, M264_8>($case),
+            11 => run_mismatch::<$t, M520_8>($case),
+            _ => run_mismatch::<$t, M65544_8>($case),
         }
     };
 }
-pub const MM_N: u8 = 9;
+pub const MM_N: u8 = 13;
 
 pub fn check_mismatch(case: &MismatchCase) -> Result<Stats, Failure> {
     let from = case.from % MM_N;
@@ -672,7 +706,11 @@ pub fn check_mismatch(case: &MismatchCase) -> Result<Stats, Failure> {
         5 => mm_inner!(M4_2, to, case),
         6 => mm_inner!(M8_1, to, case),
         7 => mm_inner!(MZ1, to, case),
-        _ => mm_inner!(MZ8, to, case),
+        8 => mm_inner!(MZ8, to, case),
+        9 => mm_inner!(M260_4, to, case),
+        10 => mm_inner!(M264_8, to, case),
+        11 => mm_inner!(M520_8, to, case),
+        _ => mm_inner!(M65544_8, to, case),
     }
 }
 
@@ -737,12 +775,12 @@ pub fn enumerate(prop: &str, max_len: usize) -> (Outcome, u64) {
                             while pick(sel, len) < p {
                                 sel += 1;
                             }
-                            scenarios.push(Scenario { pair, spare: (len % 3) as u16, actions: actions.clone(), try_entry, failure: Some((sel, kind)) });
+                            scenarios.push(Scenario { pair, spare: (len % 3) as u16, actions: actions.clone(), try_entry, failure: Some((sel, kind)), in_unwind: (len + sel as usize) % 5 == 4 });
                         }
                     }
                 } else {
                     for try_entry in [false, true] {
-                        scenarios.push(Scenario { pair, spare: (len % 3) as u16, actions: actions.clone(), try_entry, failure: None });
+                        scenarios.push(Scenario { pair, spare: (len % 3) as u16, actions: actions.clone(), try_entry, failure: None, in_unwind: len % 5 == 4 });
                     }
                 }
                 for sc in scenarios {
